@@ -1,0 +1,62 @@
+//go:build verif
+
+package peer
+
+import (
+	"context"
+	"io"
+	"net"
+
+	"github.com/postalsys/muti-metroo/internal/identity"
+	"github.com/postalsys/muti-metroo/internal/protocol"
+	"github.com/postalsys/muti-metroo/internal/transport"
+)
+
+// verifNullConn is a transport.PeerConn that never yields a stream; the
+// verification harness only needs the Connection wrapper (stream id
+// allocator, frame writer).
+type verifNullConn struct{ dialer bool }
+
+func (c *verifNullConn) OpenStream(ctx context.Context) (transport.Stream, error) {
+	<-ctx.Done()
+	return nil, ctx.Err()
+}
+func (c *verifNullConn) AcceptStream(ctx context.Context) (transport.Stream, error) {
+	<-ctx.Done()
+	return nil, ctx.Err()
+}
+func (c *verifNullConn) Close() error                           { return nil }
+func (c *verifNullConn) LocalAddr() net.Addr                    { return &net.TCPAddr{} }
+func (c *verifNullConn) RemoteAddr() net.Addr                   { return &net.TCPAddr{} }
+func (c *verifNullConn) IsDialer() bool                         { return c.dialer }
+func (c *verifNullConn) TransportType() transport.TransportType { return transport.TransportType("verif") }
+
+// VerifNewConnection builds a connected Connection to remoteID whose outgoing
+// frames are encoded onto w. There is no handshake and no read loop: the
+// harness injects incoming frames through the owner's frame handler itself.
+func VerifNewConnection(localID, remoteID identity.AgentID, dialer bool, w io.Writer) *Connection {
+	c := NewConnection(&verifNullConn{dialer: dialer}, DefaultConnectionConfig(localID))
+	c.RemoteID = remoteID
+	c.writer = protocol.NewFrameWriter(w)
+	c.SetState(StateConnected)
+	c.markReady()
+	return c
+}
+
+// VerifRegister makes conn the manager's connection to conn.RemoteID without
+// starting the read and keepalive loops and without the connected callback.
+func (m *Manager) VerifRegister(conn *Connection) {
+	m.mu.Lock()
+	m.peers[conn.RemoteID] = conn
+	m.mu.Unlock()
+}
+
+// VerifUnregister removes the connection to id from the peers map (what
+// handleDisconnect does before it notifies the disconnect callback).
+func (m *Manager) VerifUnregister(id identity.AgentID) *Connection {
+	m.mu.Lock()
+	c := m.peers[id]
+	delete(m.peers, id)
+	m.mu.Unlock()
+	return c
+}
